@@ -66,7 +66,23 @@ def constants() -> dict:
     from exabgp.bgp.message.update.nlri.evpn.nlri import EVPN
     from exabgp.bgp.message.update.nlri.qualifier.path import PathInfo
 
+    # the two switches of `Flow._encode_length`, read by probing the live method: the smallest payload
+    # that takes the two-octet form and the smallest one the encoder refuses
+    probe = flow.Flow.make_flow()
+
+    def form(n: int) -> int:
+        try:
+            return len(bytes(probe._encode_length(bytes(n)))) - n
+        except Exception:  # noqa: BLE001
+            return 0
+
+    compact_limit = next(n for n in range(0, 5000) if form(n) != 1)
+    encode_limit = next(n for n in range(compact_limit, 70000) if form(n) != 2)
+    if any(form(n) != 1 for n in range(compact_limit)) or any(form(n) != 2 for n in range(compact_limit, encode_limit)):
+        raise RuntimeError('Flow._encode_length is not the two-threshold function the model assumes')
     return {
+        'flowCompactLimit': compact_limit,
+        'flowEncodeLimit': encode_limit,
         'flowExtendedMask': flow.FLOW_LENGTH_EXTENDED_MASK,
         'flowExtendedValue': flow.FLOW_LENGTH_EXTENDED_VALUE,
         'flowLowerMask': flow.FLOW_LENGTH_LOWER_MASK,
